@@ -245,8 +245,83 @@ def body_catalogue(case, note):
     note(True, "void" if r["name"] in gen.VOID else "non-void", "childless" if not r["kids"] else "with-children")
 
 
+# ------------------------------------------------------------------ second reader (stdlib html.parser)
+
+
+def parser_events(html: str):
+    """event stream of the stdlib HTMLParser (names lower-cased by the parser), text stripped/merged like actual_events"""
+    from html.parser import HTMLParser
+
+    ev: list = []
+
+    class P(HTMLParser):
+        def handle_starttag(self, tag, attrs):
+            ev.append(("open", tag, [(k, "" if v is None else v) for k, v in attrs], False))
+
+        def handle_startendtag(self, tag, attrs):
+            ev.append(("open", tag, [(k, "" if v is None else v) for k, v in attrs], True))
+
+        def handle_endtag(self, tag):
+            ev.append(("close", tag))
+
+        def handle_data(self, data):
+            if ev and ev[-1][0] == "text":
+                ev[-1] = ("text", ev[-1][1] + data)
+            else:
+                ev.append(("text", data))
+
+        def handle_comment(self, data):
+            ev.append(("comment", data))
+
+        def handle_decl(self, decl):
+            ev.append(("doctype", decl))
+
+    p = P(convert_charrefs=True)
+    p.feed(html)
+    p.close()
+    out = []
+    for e in ev:
+        if e[0] == "text":
+            s = e[1].strip(WS_STRIP)
+            if s:
+                out.append(("text", s))
+        else:
+            out.append(e)
+    return out
+
+
+def _lower(events):
+    out = []
+    for e in events:
+        if e[0] == "open":
+            out.append(("open", e[1].lower(), [(k.lower(), v) for k, v in e[2]], e[3]))
+        elif e[0] == "close":
+            out.append(("close", e[1].lower()))
+        else:
+            out.append(e)
+    return out
+
+
+def body_readers(case, note):
+    """T and the stdlib HTMLParser read the library's output; T must agree with the tree (as in 'tree'); a
+    disagreement between the two *readers* is recorded as a class (it would point at an oracle bug), never a violation."""
+    import htmltools
+
+    roots = case["roots"]
+    objs = [build(r) for r in roots]
+    html = htmltools.TagList(*objs).get_html_string(case["indent"], case["eol"])
+    ev = []
+    for r, o in zip(roots, objs):
+        expected_events(r, o, ev)
+    compare("TagList.get_html_string", html, normalise_expected(ev))
+    a = _lower(actual_events(html))
+    b = parser_events(html)
+    note(True, "readers-agree" if a == b else "reader-disagreement")
+
+
 def selftest():
     T.selftest()
+    assert parser_events('<div id="a&amp;b">x<br/>y</div>') == _lower(actual_events('<div id="a&amp;b">x<br/>y</div>'))
     assert len(gen.VOID) == 16
 
 
@@ -270,5 +345,6 @@ CLAUSES = [
         rule="see RULE",
         fuzz=100000,
     ),
+    Clause("readers", body_readers, source="given", strategy=case_strategy, quick=300, thorough=8000, shards_quick=1, shards_thorough=8, required=("readers-agree",), rule="every case (class histogram reports reader agreement)"),
     Clause("catalogue", body_catalogue, source="enum", enum=enum_catalogue, shards_quick=2, shards_thorough=4, rule="every case"),
 ]
